@@ -28,6 +28,7 @@ import (
 	"github.com/attestantio/dirk/services/metrics"
 	"github.com/attestantio/dirk/util/loggers"
 	grpcmiddleware "github.com/grpc-ecosystem/go-grpc-middleware"
+	grpcrecovery "github.com/grpc-ecosystem/go-grpc-middleware/recovery"
 	grpcctxtags "github.com/grpc-ecosystem/go-grpc-middleware/tags"
 	"github.com/pkg/errors"
 	"github.com/rs/zerolog"
@@ -35,9 +36,11 @@ import (
 	pb "github.com/wealdtech/eth2-signer-api/pb/v1"
 	"go.opentelemetry.io/contrib/instrumentation/google.golang.org/grpc/otelgrpc"
 	"google.golang.org/grpc"
+	"google.golang.org/grpc/codes"
 	"google.golang.org/grpc/credentials"
 	_ "google.golang.org/grpc/encoding/gzip" // Enable GZIP compression.
 	"google.golang.org/grpc/grpclog"
+	"google.golang.org/grpc/status"
 )
 
 // Service provides the features and functions for the GRPC daemon.
@@ -140,6 +143,12 @@ func (s *Service) createServer(name string, certPEMBlock []byte, keyPEMBlock []b
 		grpc.StatsHandler(otelgrpc.NewServerHandler()),
 		grpc.UnaryInterceptor(
 			grpcmiddleware.ChainUnaryServer(
+				// A panic while handling a request must not take the daemon down; the caller receives an error.
+				grpcrecovery.UnaryServerInterceptor(grpcrecovery.WithRecoveryHandler(func(p interface{}) error {
+					log.Error().Interface("panic", p).Msg("Recovered from panic in request handler")
+
+					return status.Error(codes.Internal, "internal error")
+				})),
 				grpcctxtags.UnaryServerInterceptor(grpcctxtags.WithFieldExtractor(grpcctxtags.CodeGenRequestFieldExtractor)),
 				interceptors.RequestIDInterceptor(),
 				interceptors.SourceIPInterceptor(),
